@@ -18,7 +18,10 @@ import (
 
 var patterns = []string{"literal", "const", "let", "let-reassigned-before", "let-reassigned-after", "if-one-branch-taken", "if-one-branch-not-taken",
 	"if-both-branches", "match-arm", "while-increment", "compound-add", "incdec", "param", "func-result", "neg-div", "neg-rem", "struct-field", "via-ref",
-	"let-shadowing-block", "reassigned-in-loop-after", "reassigned-in-for-after", "catch-handler-not-run", "closure-sees-later-value"}
+	"let-shadowing-block", "reassigned-in-loop-after", "reassigned-in-for-after", "catch-handler-not-run", "closure-sees-later-value",
+	// the access sits INSIDE one alternative of a construct whose other alternative (earlier or
+	// later in the source, not executed) assigns the index
+	"match-later-arm", "match-earlier-arm", "else-after-then-assign", "then-before-else-assign", "elseif-middle"}
 var accesses = []string{"read", "write", "compound-write", "read-twice", "borrow-read", "field-read", "field-write", "optional-init", "arg", "return"}
 
 type spec struct {
@@ -75,6 +78,7 @@ func build(s spec, sfx string) (*fl.Program, bool) {
 	p.Funcs = append(p.Funcs, &fl.Func{Name: cond, Params: []fl.Param{{"v", fl.I32}}, Ret: fl.Bool, Body: []fl.Stmt{&fl.Return{X: fl.B(">", fl.V("v"), i32(0))}}})
 	a := fl.V("a")
 	var pre, post []fl.Stmt
+	var wrapAcc func([]fl.Stmt) []fl.Stmt
 	var idx fl.Expr = fl.V("i")
 	k := i32(s.k)
 	leti := func(v fl.Expr) fl.Stmt { return &fl.Let{Name: "i", T: fl.I32, Init: v} }
@@ -136,6 +140,32 @@ func build(s spec, sfx string) (*fl.Program, bool) {
 		// the handler of a catch that is not taken assigns the index
 		p.Funcs = append(p.Funcs, &fl.Func{Name: "okr" + sfx, Ret: fl.TResult{Err: fl.Str, Ok: fl.I32}, Body: []fl.Stmt{&fl.Return{X: i32(1)}}})
 		pre = []fl.Stmt{leti(k), &fl.Let{Name: "cv", Init: &fl.Catch{X: fl.C("okr" + sfx), ErrName: "e", Handler: []fl.Stmt{&fl.Assign{LHS: fl.V("i"), RHS: i32(other)}}, Fallback: i32(0)}}, fl.P(fl.V("cv"))}
+	case "match-later-arm":
+		pre = []fl.Stmt{leti(k), &fl.Let{Name: "m", T: fl.I32, Init: i32(2)}}
+		wrapAcc = func(acc []fl.Stmt) []fl.Stmt {
+			return []fl.Stmt{&fl.Match{Subj: fl.V("m"), Arms: []fl.Arm{{Pat: i32(1), Body: []fl.Stmt{&fl.Assign{LHS: fl.V("i"), RHS: i32(other)}}}, {Pat: i32(2), Body: acc}, {Body: []fl.Stmt{fl.P(fl.S("none"))}}}}}
+		}
+	case "match-earlier-arm":
+		pre = []fl.Stmt{leti(k), &fl.Let{Name: "m", T: fl.I32, Init: i32(1)}}
+		wrapAcc = func(acc []fl.Stmt) []fl.Stmt {
+			return []fl.Stmt{&fl.Match{Subj: fl.V("m"), Arms: []fl.Arm{{Pat: i32(1), Body: acc}, {Pat: i32(2), Body: []fl.Stmt{&fl.Assign{LHS: fl.V("i"), RHS: i32(other)}}}, {Body: []fl.Stmt{fl.P(fl.S("none"))}}}}}
+		}
+	case "else-after-then-assign":
+		pre = []fl.Stmt{leti(k)}
+		wrapAcc = func(acc []fl.Stmt) []fl.Stmt {
+			return []fl.Stmt{&fl.If{Cond: fl.C(cond, i32(0)), Then: []fl.Stmt{&fl.Assign{LHS: fl.V("i"), RHS: i32(other)}}, Else: acc}}
+		}
+	case "then-before-else-assign":
+		pre = []fl.Stmt{leti(k)}
+		wrapAcc = func(acc []fl.Stmt) []fl.Stmt {
+			return []fl.Stmt{&fl.If{Cond: fl.C(cond, i32(1)), Then: acc, Else: []fl.Stmt{&fl.Assign{LHS: fl.V("i"), RHS: i32(other)}}}}
+		}
+	case "elseif-middle":
+		pre = []fl.Stmt{leti(k)}
+		wrapAcc = func(acc []fl.Stmt) []fl.Stmt {
+			return []fl.Stmt{&fl.If{Cond: fl.C(cond, i32(0)), Then: []fl.Stmt{&fl.Assign{LHS: fl.V("i"), RHS: i32(other)}},
+				Else: []fl.Stmt{&fl.If{Cond: fl.C(cond, i32(1)), Then: acc, Else: []fl.Stmt{&fl.Assign{LHS: fl.V("i"), RHS: i32(other)}}}}}}
+		}
 	case "param":
 	}
 	var acc []fl.Stmt
@@ -197,7 +227,11 @@ func build(s spec, sfx string) (*fl.Program, bool) {
 		cl := &fl.FuncLit{Body: append([]fl.Stmt{fl.P(fl.S("before"))}, acc...)}
 		body = append(append(append([]fl.Stmt{}, decl...), leti(i32(other)), &fl.Let{Name: "f", Init: cl}, &fl.Assign{LHS: fl.V("i"), RHS: k}, &fl.ExprStmt{X: &fl.Call{Fn: "f"}}), dump...)
 	default:
-		body = append(append(append(append([]fl.Stmt{}, decl...), pre...), fl.P(fl.S("before"))), acc...)
+		if wrapAcc != nil {
+			body = append(append(append([]fl.Stmt{}, decl...), pre...), wrapAcc(append([]fl.Stmt{fl.P(fl.S("before"))}, acc...))...)
+		} else {
+			body = append(append(append(append([]fl.Stmt{}, decl...), pre...), fl.P(fl.S("before"))), acc...)
+		}
 		body = append(append(body, post...), dump...)
 	}
 	p.Funcs = append(p.Funcs, &fl.Func{Name: "main", Body: body})
@@ -215,7 +249,8 @@ func elemWith(et fl.Type, st *fl.TStruct, v int64) fl.Expr {
 func Bases(quick bool) []*prog.Case {
 	var out []*prog.Case
 	seq := 900000
-	for _, pat := range []string{"literal", "const", "let", "let-reassigned-before", "let-reassigned-after", "if-one-branch-taken", "if-both-branches", "compound-add", "incdec", "neg-div", "neg-rem"} {
+	for _, pat := range []string{"literal", "const", "let", "let-reassigned-before", "let-reassigned-after", "if-one-branch-taken", "if-both-branches", "compound-add", "incdec", "neg-div", "neg-rem",
+		"match-arm", "match-later-arm", "match-earlier-arm", "else-after-then-assign", "elseif-middle"} {
 		for _, acc := range []string{"read", "write"} {
 			for _, k := range []int64{-1, 0, 2} {
 				s := spec{pat, acc, 3, k, "i32"}
